@@ -72,8 +72,7 @@ partial def why (X : Compile.TP) (d : Bool) (n : GoNode) : Option String :=
   match n with
   | .empty => none
   | .bare t =>
-    if t == opUpdateBumpalong then some "UpdateBumpalong"
-    else if t == opECMABoundary || t == opNonECMABoundary then some "ECMABoundary"
+    if t == opECMABoundary || t == opNonECMABoundary then some "ECMABoundary"
     else if (Compile.bareToPat X t).isNone then some s!"node:{typeName t}" else none
   | .char t rtl _ ch =>
     (dir rtl t).orElse fun _ =>
